@@ -3,7 +3,7 @@ from __future__ import annotations
 
 import copy
 
-from .absint import TOP, Evaluator, Lin, Obj, SliceV, Sym, Unmodelled
+from .absint import TOP, Evaluator, Lin, Obj, SliceV, Sym, Unmodelled, xr_mapping_arg
 from .affsel import FACTS, interpret
 from .geometry import reciprocal_side
 from .harness import da_attr_models
@@ -22,13 +22,13 @@ def axis_of_dim(d):
 
 def method_models():
     def isel(ev, recv, args, kw, node):
-        m = dict(args[0]) if args else dict(kw)
+        m = xr_mapping_arg("isel", args, kw) or {}
         dims = recv.attrs.get("dims")
         nd = tuple(d for d in dims if not (d in m and not isinstance(m[d], SliceV)))
         return recv.with_eff(("isel", m), dims=nd)
 
     def rename(ev, recv, args, kw, node):
-        m = dict(args[0]) if args else dict(kw)
+        m = xr_mapping_arg("rename", args, kw) or {}
         dims = recv.attrs.get("dims")
         if any(isinstance(v, (str,)) or not isinstance(v, Sym) for v in m.values()):
             ev.events.append(("rename-to-manufactured-name", m, node))
@@ -85,7 +85,11 @@ def m_pad_basic(ev, args, kw, node):
 
 
 def m_concat(ev, args, kw, node):
-    parts = list(args[0])
+    # xarray.concat(objs, dim, ...) - both may be given by keyword
+    objs = args[0] if args else kw.get("objs")
+    if objs is None:
+        raise Unmodelled("xarray.concat without objects", node)
+    parts = list(ev.iterate(objs, node))
     dims = None
     for p in parts:
         if isinstance(p, Obj):
